@@ -420,7 +420,7 @@ theorem extents_prefix (macFn : Tsig → List UInt8 → List UInt8) {s sR : Stat
     ∃ d : Message.Decoded, Message.specDecodeMsg m = some d ∧
       ∀ (qs : List QItC) (rs : List RItC), QChainC s qs 12 s.rrStart → RChainC s rs s.rrStart s.cursor →
         (d.extents.map (·.2)).take (qs.length + rs.length) = qs.map qEnd ++ rs.map rEnd := by
-  obtain ⟨d, qsR, ian, ins, iar, hd, _, _, _, _, _, _, _, _, _, _, _, _, _, _, _, hext, rs0, ex, hsplit, hq0, hr0⟩ :=
+  obtain ⟨d, qsR, ian, ins, iar, hd, _, _, _, _, _, _, _, _, _, _, _, _, _, _, _, hext, rs0, ex, hsplit, hq0, hr0, _⟩ :=
     finish_refines macFn sR B MB hIR hLR hT m mac hf hsz
   refine ⟨d, hd, fun qs rs hq hr => ?_⟩
   have h12 : 12 ≤ s.rrStart := qchainC_le hq
